@@ -107,13 +107,29 @@ def script_bytes(v):
     raise Unsupported(f"expected Script, got {v!r}")
 
 
+def _structured(v):
+    v = deref(v)
+    return isinstance(v, Struct) and v.name == "Script" and isinstance(v.f[0], ListV)
+
+
+def _real(ex, callsite, a):
+    d = ex.P.resolve(callsite)
+    if d is None:
+        raise Unsupported("cannot resolve " + callsite)
+    return ex.call_fn(d, a)
+
+
 @model(r"(^|::)Script::to_bytes$")
 def m_script_to_bytes(ex, a, callee, canon):
+    if _structured(a[0]):
+        return _real(ex, "script::Script::to_bytes", a)
     return Bytes(script_bytes(a[0]).s)
 
 
 @model(r"(^|::)Script::get_script_length$")
 def m_script_len(ex, a, callee, canon):
+    if _structured(a[0]):
+        return _real(ex, "script::Script::get_script_length", a)
     return Int(ex.seq_len(script_bytes(a[0]).s), "usize")
 
 
@@ -125,6 +141,8 @@ def m_script_default(ex, a, callee, canon):
 @model(r"(^|::)Script::remove_codeseparators$")
 def m_script_rmcs(ex, a, callee, canon):
     sp = a[0]
+    if _structured(sp):
+        return _real(ex, "script::Script::remove_codeseparators", a)
     s = deref(sp)
     f = uf("REMOVE_CODESEPARATORS", SEQ, SEQ)
     s.f[0] = Bytes(f(s.f[0].s))
@@ -210,6 +228,9 @@ def m_vec_insert(ex, a, callee, canon):
     if isinstance(v, Bytes):
         items = ex.seq_items(v.s)
         ci = idx.concrete()
+        if ci == 0:
+            p.set(Bytes(seq_concat(z3.Unit(val.t), v.s)))
+            return UNIT
         if items is None or ci is None:
             raise Unsupported("Vec<u8>::insert on symbolic-length bytes")
         if ci > len(items):
@@ -322,7 +343,7 @@ def m_reverse(ex, a, callee, canon):
     raise Unsupported(f"reverse on {v!r}")
 
 
-@model(r"^core::num::<impl (u16|u32|u64|i32|i64|usize)>::to_(le|be)_bytes$")
+@model(r"^core::num::<impl (u8|u16|u32|u64|i32|i64|usize)>::to_(le|be)_bytes$")
 def m_to_bytes(ex, a, callee, canon):
     v = a[0]
     n = v.t.size() // 8
@@ -747,6 +768,9 @@ def m_slice_last(ex, a, callee, canon):
         return some(Ptr(v.f, len(v.f) - 1)) if v.f else NONE()
     if isinstance(v, Bytes):
         s = v.s
+        units = seq_units(s)
+        if units is not None:
+            return some(Ptr([Int(units[-1], "u8")], 0)) if units else NONE()
         k = s.decl().kind()
         if k == z3.Z3_OP_SEQ_EMPTY:
             return NONE()
@@ -1201,3 +1225,165 @@ def m_u8_bitop(ex, a, callee, canon):
     x, y = deref(a[0]), deref(a[1])
     op = canon.rsplit("::", 1)[1]
     return Int({"bitand": x.t & y.t, "bitor": x.t | y.t, "bitxor": x.t ^ y.t}[op], "u8")
+
+
+# ------------------------------------------------------------------ more Option / slice / iterator helpers (often used by small refactors)
+def _truth(ex, r):
+    c = r.concrete()
+    return ex.decide(r.t) if c is None else c
+
+
+@model(r"^Option::filter$")
+def m_option_filter(ex, a, callee, canon):
+    o = a[0]
+    if o.variant != "Some":
+        return o
+    tmp = [o.f[0]]
+    return o if _truth(ex, ex.call_closure(a[1], [Ptr(tmp, 0)])) else NONE()
+
+
+@model(r"^Option::is_some_and$|^Result::is_ok_and$")
+def m_is_some_and(ex, a, callee, canon):
+    o = a[0]
+    if o.variant not in ("Some", "Ok"):
+        return Bool(False)
+    return Bool(_truth(ex, ex.call_closure(a[1], [o.f[0]])))
+
+
+@model(r"^Option::map_or$")
+def m_map_or(ex, a, callee, canon):
+    o = a[0]
+    return ex.call_closure(a[2], [o.f[0]]) if o.variant == "Some" else a[1]
+
+
+@model(r"^Option::map_or_else$")
+def m_map_or_else(ex, a, callee, canon):
+    o = a[0]
+    return ex.call_closure(a[2], [o.f[0]]) if o.variant == "Some" else ex.call_closure(a[1], [])
+
+
+@model(r"^Option::unwrap_or_else$|^Result::unwrap_or_else$")
+def m_unwrap_or_else(ex, a, callee, canon):
+    o = a[0]
+    if o.variant in ("Some", "Ok"):
+        return o.f[0]
+    return ex.call_closure(a[1], [] if o.variant == "None" else [o.f[0]])
+
+
+@model(r"^Option::and$")
+def m_option_and(ex, a, callee, canon):
+    return a[1] if a[0].variant == "Some" else a[0]
+
+
+@model(r"^Option::or$")
+def m_option_or(ex, a, callee, canon):
+    return a[0] if a[0].variant == "Some" else a[1]
+
+
+@model(r"^Option::take$")
+def m_option_take(ex, a, callee, canon):
+    p = a[0]
+    v = p.get()
+    p.set(NONE())
+    return v
+
+
+@model(r"^core::slice::<impl \[.*\]>::is_empty$")
+def m_slice_is_empty(ex, a, callee, canon):
+    n = ex.len_of(deref(a[0]))
+    return Bool(n.t == 0)
+
+
+@model(r"^core::slice::<impl \[.*\]>::first$")
+def m_slice_first(ex, a, callee, canon):
+    v = deref(a[0])
+    if isinstance(v, (ListV, Arr)):
+        return some(Ptr(v.f, 0)) if v.f else NONE()
+    if isinstance(v, Bytes):
+        items = ex.seq_items(v.s)
+        if items is not None:
+            return some(Ptr([Int(items[0], "u8")], 0)) if items else NONE()
+    raise Unsupported(f"first on {v!r}")
+
+
+@model(r"^<.* as Iterator>::count$")
+def m_iter_count(ex, a, callee, canon):
+    n = 0
+    while iter_next(ex, a[0]) is not None:
+        n += 1
+    return Int(n, "usize")
+
+
+@model(r"^<.* as Iterator>::last$")
+def m_iter_last(ex, a, callee, canon):
+    last = None
+    while True:
+        x = iter_next(ex, a[0])
+        if x is None:
+            return NONE() if last is None else some(last)
+        last = x
+
+
+@model(r"^<.* as Iterator>::position$")
+def m_iter_position(ex, a, callee, canon):
+    i = 0
+    while True:
+        x = iter_next(ex, a[0])
+        if x is None:
+            return NONE()
+        if _truth(ex, ex.call_closure(a[1], [x])):
+            return some(Int(i, "usize"))
+        i += 1
+
+
+@model(r"^<.* as Iterator>::find$")
+def m_iter_find(ex, a, callee, canon):
+    while True:
+        x = iter_next(ex, a[0])
+        if x is None:
+            return NONE()
+        tmp = [x]
+        if _truth(ex, ex.call_closure(a[1], [Ptr(tmp, 0)])):
+            return some(x)
+
+
+@model(r"^<.* as Iterator>::fold$")
+def m_iter_fold(ex, a, callee, canon):
+    acc = a[1]
+    while True:
+        x = iter_next(ex, a[0])
+        if x is None:
+            return acc
+        acc = ex.call_closure(a[2], [acc, x])
+
+
+@model(r"^<.* as Iterator>::(rev|skip|take|cloned|copied)$")
+def m_iter_simple_adapters(ex, a, callee, canon):
+    kind = canon.rsplit("::", 1)[1]
+    it = a[0]
+    if isinstance(it, IterV):
+        rest = it.items[it.i:]
+        if kind == "rev":
+            return IterV(list(reversed(rest)), it.by_ref)
+        if kind in ("skip", "take"):
+            n = a[1].concrete()
+            if n is None:
+                raise Unsupported(f"{kind} with a symbolic count")
+            return IterV(rest[n:] if kind == "skip" else rest[:n], it.by_ref)
+        if kind in ("cloned", "copied"):
+            return IterV([clone(deref(x)) for x in rest], False)
+    raise Unsupported(f"{kind} over {it!r}")
+
+
+@model(r"^Vec::retain$")
+def m_vec_retain(ex, a, callee, canon):
+    p = a[0]
+    v = p.get()
+    if not isinstance(v, ListV):
+        raise Unsupported("retain on non-list")
+    keep = []
+    for i in range(len(v.f)):
+        if _truth(ex, ex.call_closure(a[1], [Ptr(v.f, i)])):
+            keep.append(v.f[i])
+    v.f[:] = keep
+    return UNIT
